@@ -16,6 +16,9 @@
 (*    argument_altered          the call itself changed an argument that   *)
 (*                              is documented as unmodified                *)
 (*    sums_inconsistent         a bin's sum is not the total of its items  *)
+(* "addbad" is an addition of an item for which the value function raises: *)
+(* the manager must reject it (out = "ret" records that it did) and leave  *)
+(* every array unchanged (Expected = v).                                   *)
 (***************************************************************************)
 EXTENDS BinnerVal, Json, IOUtils
 CONSTANT Active
@@ -29,6 +32,7 @@ ObsLive(st) == { a \in Slots : a <= Len(st) /\ st[a].live = 1 }
 
 Guard(ev) == CASE ev.op = "new"      -> G_new(live, v, ev.a, ev.n)
                [] ev.op = "add"      -> G_add(live, v, ev.a, ev.i)
+               [] ev.op = "addbad"   -> G_add(live, v, ev.a, ev.i)
                [] ev.op = "copy"     -> G_copy(live, ev.a, ev.b)
                [] ev.op = "sort"     -> G_sort(live, ev.a)
                [] ev.op = "addempty" -> G_addempty(live, v, ev.a, ev.n)
@@ -40,6 +44,7 @@ Guard(ev) == CASE ev.op = "new"      -> G_new(live, v, ev.a, ev.n)
 Expected(ev, O) ==
             CASE ev.op = "new"      -> R_new(v, ev.a, ev.n)
                [] ev.op = "add"      -> R_add(v, keep, ev.a, ev.it, ev.i)
+               [] ev.op = "addbad"   -> v     \* a rejected addition leaves every array as it was
                [] ev.op = "copy"     -> R_copy(v, ev.a, ev.b)
                [] ev.op = "sort"     -> IF IsSortOf(O[ev.a], v[ev.a]) THEN [v EXCEPT ![ev.a] = O[ev.a]] ELSE v
                [] ev.op = "addempty" -> R_addempty(v, ev.a, ev.n)
